@@ -9,6 +9,7 @@ CONSTANTS
   Eager = TRUE
   CloseErr = FALSE
   Defect_LateCloseUnderLock = FALSE
+  Defect_NoJoin = FALSE
   Defect_AddDeadConn = FALSE
   Mut = "none"
 ACTION_CONSTRAINT EmitEdge
